@@ -97,6 +97,8 @@ func buildSelVals() {
 		{Expr: "(1/0)", Truthy: true, Kind: "num", Inf: 1, NegOK: true, CoalOK: true},
 		{Expr: "dninf", Truthy: true, Kind: "num", Inf: -1, NegOK: true, CoalOK: true},
 		str("''", ""), str("istr", ""), str("'0'", "0"), str("'a'", "a"), str("' '", " "), str("'false'", "false"),
+		{Expr: "[]", Truthy: true, Kind: "emptyarr", CoalOK: true},
+		{Expr: "($e = [])", Truthy: true, Kind: "emptyarr", CoalOK: true},
 		{Expr: "earr", Truthy: true, Kind: "obj", Obj: d["earr"], CoalOK: true},
 		{Expr: "arr0", Truthy: true, Kind: "obj", Obj: d["arr0"], CoalOK: true},
 		{Expr: "emap", Truthy: true, Kind: "obj", Obj: selEmptyMap, CoalOK: true},
@@ -147,6 +149,9 @@ func matches(got interface{}, v *cval) bool {
 			return d.Inf && d.Neg == (v.Inf < 0)
 		}
 		return d.Finite() && d.Cmp(v.Num) == 0
+	case "emptyarr":
+		a, ok := got.([]interface{})
+		return ok && len(a) == 0
 	case "obj":
 		switch o := v.Obj.(type) {
 		case []interface{}:
@@ -343,6 +348,11 @@ func runC06(w *eng.W) {
 				if t2.ok {
 					emit("flat", SelCase{Src: "[" + selVals[c1].Expr + " ?? " + selVals[c2].Expr + " ?? " + selVals[b].Expr + "]", Want: t2.v})
 				}
+				// unparenthesised conditional chains: ?: associates to the right
+				t4 := refCond(leaf(c1), leaf(b), refCond(leaf(c2), leaf(c1), leaf(b)))
+				emit("flat", SelCase{Src: "[" + selVals[c1].Expr + " ? " + selVals[b].Expr + " : " + selVals[c2].Expr + " ? " + selVals[c1].Expr + " : " + selVals[b].Expr + "]", Want: t4.v})
+				t5 := refCond(leaf(c1), refCond(leaf(c2), leaf(b), leaf(c2)), leaf(c1))
+				emit("flat", SelCase{Src: "[" + selVals[c1].Expr + " ? " + selVals[c2].Expr + " ? " + selVals[b].Expr + " : " + selVals[c2].Expr + " : " + selVals[c1].Expr + "]", Want: t5.v})
 				t3 := refOr(leaf(c1), refAnd(leaf(c2), leaf(b)))
 				emit("flat", SelCase{Src: "[" + selVals[c1].Expr + " || " + selVals[c2].Expr + " && " + selVals[b].Expr + "]", Want: t3.v})
 			}
